@@ -225,3 +225,80 @@ func (r *Run) Lockset(pkg, typ, mutex string, fieldList []string, helpers []stri
 		r.viol("vacuous-rule", "", "lockset "+typ, "no protected access found", why, "", 0)
 	}
 }
+
+// LockWindows: the methods of pkg.typ (and the listed helpers) release recv.<mutex> in the middle of
+// a critical section (an explicit Unlock from which a Lock of the same mutex is reachable) only if
+// listed in allowed ("Method" → reason). Such a window breaks check-then-act atomicity.
+func (r *Run) LockWindows(pkg, typ, mutex string, allowed map[string]string, why string) {
+	lockPath := "recv." + mutex
+	n := 0
+	for _, name := range r.P.FuncNames() {
+		if !strings.HasPrefix(name, pkg+".(*"+typ+").") || strings.Contains(name, "$") {
+			continue
+		}
+		fn := r.P.Fn(name)
+		if fn.Blocks == nil {
+			continue
+		}
+		n++
+		env := r.P.Env(fn)
+		isOp := func(in ssa.Instruction, op string) bool {
+			c, ok := in.(*ssa.Call)
+			if !ok {
+				return false
+			}
+			f := c.Call.StaticCallee()
+			if f == nil || len(c.Call.Args) == 0 || !(strings.HasPrefix(f.String(), "(*sync.Mutex).") || strings.HasPrefix(f.String(), "(*sync.RWMutex).")) {
+				return false
+			}
+			return f.Name() == op && env.of(c.Call.Args[0]).String() == lockPath
+		}
+		var window ssa.Instruction
+		for _, b := range fn.Blocks {
+			for i, in := range b.Instrs {
+				if !isOp(in, "Unlock") {
+					continue
+				}
+				// a Lock reachable afterwards?
+				found := false
+				for _, later := range b.Instrs[i+1:] {
+					if isOp(later, "Lock") {
+						found = true
+					}
+				}
+				seen := map[*ssa.BasicBlock]bool{}
+				work := append([]*ssa.BasicBlock(nil), b.Succs...)
+				for len(work) > 0 && !found {
+					x := work[len(work)-1]
+					work = work[:len(work)-1]
+					if seen[x] {
+						continue
+					}
+					seen[x] = true
+					for _, in2 := range x.Instrs {
+						if isOp(in2, "Lock") {
+							found = true
+						}
+					}
+					work = append(work, x.Succs...)
+				}
+				if found {
+					window = in
+				}
+			}
+		}
+		file, line := r.P.FnPos(fn)
+		if window == nil {
+			continue
+		}
+		file, line = r.P.Pos(window.Pos())
+		if reason, ok := allowed[fn.Name()]; ok {
+			r.pass("K6-lock-window", name, "unlock–relock window", "deliberate: "+reason, why, file, line)
+		} else {
+			r.viol("K6-lock-window", name, "unlock–relock window", fmt.Sprintf("%s releases %s.%s at %s:%d and takes it again later: another goroutine can change the protected state between the check made before and the update made after", name, typ, mutex, file, line), why, file, line)
+		}
+	}
+	if n == 0 {
+		r.viol("vacuous-rule", "", "lock windows "+typ, "no methods found", why, "", 0)
+	}
+}
